@@ -166,6 +166,7 @@ class ParseVector(Contract):
         o.fields["metrics"] = SMap.empty("metrics")
         o.fields["minor_version"] = None
         o.fields["missing_metrics"] = []
+        o.assumed_state = True  # attributes set earlier in __init__ that this pre-state does not list: undecided, no AttributeError
         for f in g.facts(vec):
             ctx.assume(f)
         ctx.data["self"] = o
